@@ -95,8 +95,8 @@ def snapshot():
         # prune: keep the 12 most recent trees (parallel self-tests against scratch worktrees use several at once)
         td = os.path.join(SCRATCH, "trees")
         ents = sorted((os.path.getmtime(os.path.join(td, e)), e) for e in os.listdir(td))
-        for _, e in ents[:-12]:
-            if e != h:
+        for mt, e in ents[:-12]:
+            if e != h and time.time() - mt > 2700:      # (a tree used within the last 45 minutes may belong to a run that is still going on)
                 shutil.rmtree(os.path.join(td, e), ignore_errors=True)
                 shutil.rmtree(os.path.join(SCRATCH, "mir", e), ignore_errors=True)
         os.utime(d)
